@@ -107,6 +107,14 @@ CLAIMED = {
              "a point on node i gives weight 1 to node i, 0 to node i+1. Empty bins raise ZeroDivisionError in the code: theorems assume "
              "non-zero accumulated weight.", ref="8 (C20), 5",
              tech="Lean 4 theorems (floor arithmetic, fold = sums) on a hand-written model + correspondence + hat-weight oracle"),
+ "C18": dict(text="Partial. Theorems on the hand model of _write_out_to_file (own digit functions; the model's file is compared byte for byte "
+             "with the files of all 8 real writers): the text of every finite double parses back to exactly (sign, "
+             "round-half-even(|v| 10^12)) and lies within 5e-13 of the stored value (exact rational arithmetic on the bit pattern); "
+             "the file starts with the row count, then one comment line, then exactly that many rows; reading back (skip 2, drop #, "
+             "split at the blank) returns the rows in order. np.loadtxt's text->nearest-double step is outside the model; the one-ulp "
+             "effect it causes for 4096<=|v|<8192 is a recorded known finding (F9a). Re-ingestion of a written S(Q) is checked by the "
+             "oracle on the real code.", ref="8 (C18), 5",
+             tech="Lean 4 theorems (digit round trips, rational rounding bound) on a hand-written model + byte-exact correspondence (partial)"),
 }
 
 m = {"version": 1, "setup_cmd": "./setup.sh",
